@@ -175,6 +175,31 @@ theorem mapIdx_fwd {α : Type} {f : Nat → α → α} {l : List α} {i : Nat} {
     (h : l[i]? = some x) : ∃ y, (l.mapIdx f)[i]? = some y := by
   rw [List.getElem?_mapIdx, h]; exact ⟨_, rfl⟩
 
+theorem awgDrop_healthy {n : Name} {g : Awg} (h : g.fault = 0) :
+    awgDrop n g = { g with progs := adel n g.progs, armed := none } := by
+  simp [awgDrop, h]
+
+theorem dacDrop_healthy {n : Name} {g : Dac} (h : g.fault = 0) :
+    dacDrop n g = { g with progs := adel n g.progs } := by
+  simp [dacDrop, h]
+
+theorem awgDrop_fault (n : Name) (g : Awg) : (awgDrop n g).fault = g.fault := by
+  unfold awgDrop; split
+  · rfl
+  · split <;> rfl
+
+theorem dacDrop_fault (n : Name) (g : Dac) : (dacDrop n g).fault = g.fault := by
+  unfold dacDrop; split <;> rfl
+
+/-- a device-wise update that keeps the fault flags keeps "every device obeys" -/
+theorem healthy_mapIdx {α : Type} (fault : α → Nat) {f : Nat → α → α} {l : List α}
+    (hf : ∀ i x, fault (f i x) = fault x) (h : ∀ x ∈ l, fault x = 0) : ∀ y ∈ l.mapIdx f, fault y = 0 := by
+  intro y hy
+  obtain ⟨i, hi⟩ := List.mem_iff_getElem?.1 hy
+  obtain ⟨x, hx, e⟩ := mapIdx_get hi
+  rw [e, hf]
+  exact h x (List.mem_of_getElem? hx)
+
 theorem inv_register {s s' : State} {n : Name} {p : Program} {cbOk update : Bool}
     {ov : Option (List (MName × Windows))} (hI : Inv s)
     (h : register true s n p cbOk update ov = .ok s') : Inv s' := by
@@ -188,11 +213,29 @@ theorem inv_register {s s' : State} {n : Name} {p : Program} {cbOk update : Bool
   · cases h
   split at h
   · cases h
+  split at h
+  · cases h
   injection h with h
   subst h
   simp only [if_true]
+  have hfa : ∀ (a : AwgId) (g : Awg), s.awgs[a]? = some g → g.fault = 0 :=
+    fun a g hg => hI.healthyA g (List.mem_of_getElem? hg)
+  have hfd : ∀ (d : DacId) (g : Dac), s.dacs[d]? = some g → g.fault = 0 :=
+    fun d g hg => hI.healthyD g (List.mem_of_getElem? hg)
   refine inv_update s _ n (some _) hI rfl rfl (aget_aput_self _ _ _) (fun n' e => aget_aput_ne e _ _)
-    ?_ ?_ (fun a g hg => mapIdx_fwd hg) (by simp) ?_ ?_
+    ?_ ?_ (fun a g hg => mapIdx_fwd hg) (by simp)
+    (healthy_mapIdx Awg.fault (fun i x => by
+      split
+      · rfl
+      · split
+        · exact awgDrop_fault n x
+        · rfl) hI.healthyA)
+    (healthy_mapIdx Dac.fault (fun i x => by
+      split
+      · rfl
+      · split
+        · exact dacDrop_fault n x
+        · rfl) hI.healthyD) ?_ ?_
   · intro r hr
     injection hr with hr; subst hr
     exact ⟨fun a ha => mem_part.1 ha, fun c hc o ho => mem_part.2 ⟨c, hc, o, ho, rfl⟩⟩
@@ -213,7 +256,7 @@ theorem inv_register {s s' : State} {n : Name} {p : Program} {cbOk update : Bool
     · simp only [hp, if_false] at e
       have hnp : ¬ Participates s p.channels a := fun hpa => hp (mem_part.2 hpa)
       by_cases hst : a ∈ oldAwgs s n
-      · rw [if_pos hst] at e
+      · rw [if_pos hst, awgDrop_healthy (hfa a g hg)] at e
         subst e
         refine ⟨rfl, rfl, fun n' e => aget_adel_ne e _, ?_, fun r hr hpa => by injection hr with hr; subst hr; exact (hnp hpa).elim⟩
         intro u hu
@@ -244,7 +287,7 @@ theorem inv_register {s s' : State} {n : Name} {p : Program} {cbOk update : Bool
     · simp only [hp, if_false] at e
       have hnp : ¬ ParticipatesD s (ov.getD p.meas) d := fun hpa => hp (mem_dpart.2 hpa)
       by_cases hst : d ∈ oldDacs s n
-      · rw [if_pos hst] at e
+      · rw [if_pos hst, dacDrop_healthy (hfd d g hg)] at e
         subst e
         refine ⟨fun n' e => aget_adel_ne e _, ?_, fun r hr hpa => by injection hr with hr; subst hr; exact (hnp hpa).elim⟩
         intro w hw
@@ -270,13 +313,25 @@ theorem inv_remove {s : State} (n : Name) (hI : Inv s) : Inv (remove s n) := by
   | none => exact hI
   | some r =>
     simp only
+    have hfa : ∀ (a : AwgId) (g : Awg), s.awgs[a]? = some g → g.fault = 0 :=
+      fun a g hg => hI.healthyA g (List.mem_of_getElem? hg)
+    have hfd : ∀ (d : DacId) (g : Dac), s.dacs[d]? = some g → g.fault = 0 :=
+      fun d g hg => hI.healthyD g (List.mem_of_getElem? hg)
     refine inv_update s _ n none hI rfl rfl (aget_adel_self _ _) (fun n' e => aget_adel_ne e _)
-      (fun r h => by cases h) (fun r h => by cases h) (fun a g hg => mapIdx_fwd hg) (by simp) ?_ ?_
+      (fun r h => by cases h) (fun r h => by cases h) (fun a g hg => mapIdx_fwd hg) (by simp)
+      (healthy_mapIdx Awg.fault (fun i x => by
+        split
+        · exact awgDrop_fault n x
+        · rfl) hI.healthyA)
+      (healthy_mapIdx Dac.fault (fun i x => by
+        split
+        · exact dacDrop_fault n x
+        · rfl) hI.healthyD) ?_ ?_
     · intro a g' hg'
       obtain ⟨g, hg, e⟩ := mapIdx_get hg'
       refine ⟨g, hg, ?_⟩
       by_cases hp : a ∈ r.awgs
-      · rw [if_pos hp] at e
+      · rw [if_pos hp, awgDrop_healthy (hfa a g hg)] at e
         subst e
         refine ⟨rfl, rfl, fun n' e => aget_adel_ne e _, ?_, fun r h => by cases h⟩
         intro u hu
@@ -297,7 +352,7 @@ theorem inv_remove {s : State} (n : Name) (hI : Inv s) : Inv (remove s n) := by
       obtain ⟨g, hg, e⟩ := mapIdx_get hg'
       refine ⟨g, hg, ?_⟩
       by_cases hp : d ∈ r.dacs
-      · rw [if_pos hp] at e
+      · rw [if_pos hp, dacDrop_healthy (hfd d g hg)] at e
         subst e
         refine ⟨fun n' e => aget_adel_ne e _, ?_, fun r h => by cases h⟩
         intro w hw
@@ -322,13 +377,24 @@ theorem inv_same (s s' : State) (hI : Inv s)
     (hfwdA : ∀ (a : AwgId) (g : Awg), s.awgs[a]? = some g → ∃ g', s'.awgs[a]? = some g')
     (hlenD : s'.dacs.length = s.dacs.length)
     (hawg : ∀ (a : AwgId) (g' : Awg), s'.awgs[a]? = some g' →
-        ∃ g, s.awgs[a]? = some g ∧ g'.nch = g.nch ∧ g'.nmk = g.nmk ∧ g'.progs = g.progs)
-    (hdac : ∀ (d : DacId) (g' : Dac), s'.dacs[d]? = some g' → ∃ g, s.dacs[d]? = some g ∧ g'.progs = g.progs) :
+        ∃ g, s.awgs[a]? = some g ∧ g'.nch = g.nch ∧ g'.nmk = g.nmk ∧ g'.progs = g.progs ∧ g'.fault = g.fault)
+    (hdac : ∀ (d : DacId) (g' : Dac), s'.dacs[d]? = some g' →
+        ∃ g, s.dacs[d]? = some g ∧ g'.progs = g.progs ∧ g'.fault = g.fault) :
     Inv s' := by
+  have hhA : ∀ g' ∈ s'.awgs, g'.fault = 0 := by
+    intro g' hg'
+    obtain ⟨a, ha⟩ := List.mem_iff_getElem?.1 hg'
+    obtain ⟨g, hg, _, _, _, ef⟩ := hawg a g' ha
+    rw [ef]; exact hI.healthyA g (List.mem_of_getElem? hg)
+  have hhD : ∀ g' ∈ s'.dacs, g'.fault = 0 := by
+    intro g' hg'
+    obtain ⟨d, hd⟩ := List.mem_iff_getElem?.1 hg'
+    obtain ⟨g, hg, _, ef⟩ := hdac d g' hd
+    rw [ef]; exact hI.healthyD g (List.mem_of_getElem? hg)
   refine inv_update s s' 0 (aget 0 s.registered) hI hcm hmm (by rw [hreg]) (fun n' _ => by rw [hreg])
-    (fun r hr => hI.regAwgs 0 r hr) (fun r hr => hI.regDacs 0 r hr) hfwdA hlenD ?_ ?_
+    (fun r hr => hI.regAwgs 0 r hr) (fun r hr => hI.regDacs 0 r hr) hfwdA hlenD hhA hhD ?_ ?_
   · intro a g' hg'
-    obtain ⟨g, hg, e1, e2, e3⟩ := hawg a g' hg'
+    obtain ⟨g, hg, e1, e2, e3, _⟩ := hawg a g' hg'
     refine ⟨g, hg, e1, e2, fun _ _ => by rw [e3], ?_, ?_⟩
     · intro u hu
       rw [e3] at hu
@@ -338,7 +404,7 @@ theorem inv_same (s s' : State) (hI : Inv s)
       rw [e3]
       exact hI.awgHolds a g hg 0 r hr hp
   · intro d g' hg'
-    obtain ⟨g, hg, e3⟩ := hdac d g' hg'
+    obtain ⟨g, hg, e3, _⟩ := hdac d g' hg'
     refine ⟨g, hg, fun _ _ => by rw [e3], ?_, ?_⟩
     · intro w hw
       rw [e3] at hw
@@ -354,6 +420,9 @@ theorem inv_arm {s s' : State} {n : Name} (hI : Inv s) (h : arm s n = .ok s') : 
   | none => rw [hr] at h; cases h
   | some r =>
     rw [hr] at h
+    simp only at h
+    split at h
+    · cases h
     injection h with h
     subst h
     refine inv_same s _ hI rfl rfl rfl (fun a g hg => mapIdx_fwd hg) (by simp) ?_ ?_
@@ -361,12 +430,12 @@ theorem inv_arm {s s' : State} {n : Name} (hI : Inv s) (h : arm s n = .ok s') : 
       obtain ⟨g, hg, e⟩ := mapIdx_get hg'
       refine ⟨g, hg, ?_⟩
       subst e
-      split <;> exact ⟨rfl, rfl, rfl⟩
+      split <;> exact ⟨rfl, rfl, rfl, rfl⟩
     · intro d g' hg'
       obtain ⟨g, hg, e⟩ := mapIdx_get hg'
       refine ⟨g, hg, ?_⟩
       subst e
-      split <;> rfl
+      split <;> exact ⟨rfl, rfl⟩
 
 /-! ## clear_programs -/
 
@@ -427,8 +496,20 @@ theorem aget_of_filter_key {κ β : Type} [DecidableEq κ] {p : κ → Bool} {k 
   · rw [if_neg hp] at h; cases h
 
 theorem inv_clear {s : State} (hI : Inv s) : Inv (clear s) := by
+  have hfa : ∀ (a : AwgId) (g : Awg), s.awgs[a]? = some g → g.fault = 0 :=
+    fun a g hg => hI.healthyA g (List.mem_of_getElem? hg)
+  have hfd : ∀ (d : DacId) (g : Dac), s.dacs[d]? = some g → g.fault = 0 :=
+    fun d g hg => hI.healthyD g (List.mem_of_getElem? hg)
   unfold clear clearWith
-  refine ⟨?_, ?_, ?_, ?_, ?_, ?_, ?_, ?_⟩
+  refine ⟨?_, ?_, ?_, ?_, ?_, ?_, ?_, ?_,
+    healthy_mapIdx Awg.fault (fun i x => by
+      split
+      · rfl
+      · split <;> rfl) hI.healthyA,
+    healthy_mapIdx Dac.fault (fun i x => by
+      split
+      · rfl
+      · split <;> rfl) hI.healthyD⟩
   · intro c outs hc o ho
     have := hI.wfChan c outs hc o ho
     unfold inRange at this ⊢
@@ -452,7 +533,7 @@ theorem inv_clear {s : State} (hI : Inv s) : Inv (clear s) := by
       subst e
       simp at hu
     · rw [if_neg hk] at e
-      simp only [if_true] at e
+      simp only [if_true, hfa a g hg] at e
       subst e
       obtain ⟨hu', _⟩ := aget_of_filter_key (p := fun n => !recordedOnAwg s a n) hu
       obtain ⟨r, _, hp, _⟩ := hI.awgHeld a g hg n u hu'
@@ -466,7 +547,7 @@ theorem inv_clear {s : State} (hI : Inv s) : Inv (clear s) := by
       subst e
       simp at hw
     · rw [if_neg hk] at e
-      simp only [if_true] at e
+      simp only [if_true, hfd d g hg] at e
       subst e
       obtain ⟨hw', _⟩ := aget_of_filter_key (p := fun n => !recordedOnDac s d n) hw
       obtain ⟨r, _, hp, _⟩ := hI.dacHeld d g hg n w hw'
@@ -521,7 +602,7 @@ theorem inv_rewire_chan (s s' : State) (hI : Inv s)
     (hwf : ∀ c outs, aget c s'.chanMap = some outs → ∀ o ∈ outs, inRange s o = true) : Inv s' := by
   have hw' : ∀ n r, aget n s.registered = some r → ∀ c ∈ r.channels, wired s.chanMap c = wired s'.chanMap c :=
     fun n r h c hc => (hw n r h c hc).symm
-  refine ⟨?_, ?_, ?_, ?_, ?_, ?_, ?_, ?_⟩
+  refine ⟨?_, ?_, ?_, ?_, ?_, ?_, ?_, ?_, by rw [hawgs]; exact hI.healthyA, by rw [hdacs]; exact hI.healthyD⟩
   · intro c outs hc o ho
     rw [inRange_awgs hawgs]; exact hwf c outs hc o ho
   · intro μ ms hμ m hm
@@ -679,7 +760,7 @@ theorem inv_rewire_meas (s s' : State) (hI : Inv s)
     (hwf : ∀ μ ms, aget μ s'.measMap = some ms → ∀ m ∈ ms, knownMask s m = true) : Inv s' := by
   have hw' : ∀ n r, aget n s.registered = some r → ∀ x ∈ r.meas, wiredM s.measMap x.1 = wiredM s'.measMap x.1 :=
     fun n r h x hx => (hw n r h x hx).symm
-  refine ⟨?_, ?_, ?_, ?_, ?_, ?_, ?_, ?_⟩
+  refine ⟨?_, ?_, ?_, ?_, ?_, ?_, ?_, ?_, by rw [hawgs]; exact hI.healthyA, by rw [hdacs]; exact hI.healthyD⟩
   · intro c outs hc o ho
     rw [hcm] at hc
     rw [inRange_awgs hawgs]; exact hI.wfChan c outs hc o ho
